@@ -545,6 +545,7 @@ struct Exec {
     u.bytes = shipped_bytes("Etc/UTC");
     slots.assign(c.tasks.size(), std::vector<Slot>(static_cast<size_t>(c.nslots)));
     env_reset(); fs_reset();
+    clk.active = true;   // a fixed simulated date for the whole run (references included): replay does not depend on the day it is run
     env.active = true; fs.active = true;  // every fopen is ENOENT, every variable is ours
     if (c.tz_env_zone == -1) env.vars["TZ"] = "";
     else if (c.tz_env_zone >= 0) env.vars["TZ"] = std::string(c.tz_env_colon ? ":" : "") + fullname(c.tz_env_zone);
